@@ -36,6 +36,9 @@ pub enum EOp {
     /// one more (global) import that carries the field name of the newest import this history
     /// added, under another module name
     AddImportSameField,
+    /// what a tool adding an indirectly callable function does: look the function table up with
+    /// `tables.main_function_table()`, create one only if there is none, add an active segment
+    AddFuncTableEntry,
     /// remove the newest import this history added through `imports.remove(module, field)` and
     /// delete the (unreferenced) entity it brought in
     RemoveNewestAddedImport,
@@ -74,6 +77,8 @@ pub fn all_ops() -> Vec<EOp> {
         v.push(EOp::ReplaceImported(k));
         v.push(EOp::ReplaceExported(k));
     }
+    // the last imported function instead of the first
+    v.push(EOp::ReplaceImported(3));
     v.push(EOp::SetStart);
     v.push(EOp::ClearStart);
     v.push(EOp::Gc);
@@ -81,13 +86,14 @@ pub fn all_ops() -> Vec<EOp> {
     v.push(EOp::GrowBody(1));
     v.push(EOp::BumpConsts);
     v.push(EOp::AddImportSameField);
+    v.push(EOp::AddFuncTableEntry);
     v.push(EOp::RemoveNewestAddedImport);
     v
 }
 
 /// operations that only add something
 fn additive(op: &EOp) -> bool {
-    matches!(op, EOp::AddFunc(..) | EOp::ExportNewestFunc | EOp::ExportFirst(_) | EOp::AddImport(_) | EOp::AddGlobal(_) | EOp::AddData(_) | EOp::AddElem(_) | EOp::AddImportSameField)
+    matches!(op, EOp::AddFunc(..) | EOp::ExportNewestFunc | EOp::ExportFirst(_) | EOp::AddImport(_) | EOp::AddGlobal(_) | EOp::AddData(_) | EOp::AddElem(_) | EOp::AddImportSameField | EOp::AddFuncTableEntry)
 }
 
 /// operations that use nothing beyond the MVP when applied to a module that has one memory and one
@@ -98,6 +104,7 @@ fn mvp_safe(op: &EOp, has_mem_and_table: bool) -> bool {
         EOp::ExportNewestFunc | EOp::ExportFirst(1) | EOp::ExportFirst(2) => true,
         EOp::AddImport(0) | EOp::AddImport(1) => true,
         EOp::AddGlobal(0) | EOp::AddGlobal(1) => true,
+        EOp::AddFuncTableEntry => true,
         EOp::AddData(1) | EOp::AddElem(2) => has_mem_and_table,
         EOp::DeleteFirstExport | EOp::DeleteNewestUnreferenced | EOp::ReplaceImported(_) | EOp::ReplaceExported(_) | EOp::SetStart | EOp::ClearStart | EOp::Gc | EOp::GrowBody(_) | EOp::BumpConsts => true,
         _ => false,
@@ -700,7 +707,11 @@ fn apply_op(o: &mut EObj, op: &EOp) {
             }
         }
         EOp::ReplaceImported(kind) => {
-            let f = m.funcs.iter().find(|f| matches!(f.kind, FunctionKind::Import(_))).map(|f| f.id());
+            let f = if kind >= 2 {
+                m.imports.iter().filter_map(|i| match i.kind { walrus::ImportKind::Function(f) => Some(f), _ => None }).last()
+            } else {
+                m.funcs.iter().find(|f| matches!(f.kind, FunctionKind::Import(_))).map(|f| f.id())
+            };
             if let Some(f) = f {
                 let results: Vec<ValType> = m.types.get(m.funcs.get(f).ty()).results().to_vec();
                 let _ = m.replace_imported_func(f, |(b, _args)| {
@@ -739,6 +750,23 @@ fn apply_op(o: &mut EObj, op: &EOp) {
             }
         }
         EOp::ClearStart => m.start = None,
+        EOp::AddFuncTableEntry => {
+            let f = match m.funcs.iter().next().map(|f| f.id()) {
+                Some(f) => f,
+                None => return,
+            };
+            let t = match m.tables.main_function_table() {
+                Ok(Some(t)) => t,
+                Ok(None) => m.tables.add_local(false, 1, None, RefType::Funcref),
+                Err(_) => return, // several function tables: the tool gives up
+            };
+            if m.tables.get(t).table64 || m.tables.get(t).initial < 1 {
+                return;
+            }
+            o.unreferenced.retain(|a| !matches!(a, Added::Func(x) if *x == f));
+            let id = m.elements.add(ElementKind::Active { table: t, offset: ConstExpr::Value(Value::I32(0)) }, ElementItems::Functions(vec![f]));
+            m.tables.get_mut(t).elem_segments.insert(id);
+        }
         EOp::AddImportSameField => {
             let field = o.added_imports.iter().rev().find(|x| x.0 == "edit").map(|x| x.1.clone());
             if let Some(field) = field {
@@ -1056,6 +1084,10 @@ pub fn bases() -> Vec<(String, Vec<u8>)> {
         ("struct:elem=40,start=2".into(), fam::build_struct(&[("elem", 40), ("start", 2)])),
         // an active data segment and no instruction that needs a data-count section (so the input has none)
         ("active-data-no-count".into(), wgen::stateful::assemble(r#"(module (memory 1) (func (export "f") (i32.store (i32.const 0) (i32.const 1))) (data (i32.const 0) "a"))"#).unwrap()),
+        // the same module / field names imported twice with different signatures, both in use
+        ("same-names-imported-twice".into(), wgen::stateful::assemble(r#"(module (import "env" "f" (func $f1 (param i32))) (import "env" "f" (func $f2 (param i64) (result i64)))
+            (import "env" "g" (func $g (result i32)))
+            (func (export "run") (result i64) (call $f1 (call $g)) (call $f2 (i64.const 5))))"#).unwrap()),
         // an imported table, functions only a new element segment could make reachable
         ("imported-table".into(), wgen::stateful::assemble(r#"(module (type $r (func (result i32))) (import "env" "t" (table $t 4 funcref))
             (func $a (type $r) (i32.const 1))
